@@ -140,6 +140,12 @@ class FullOps(TorchCalls):
         if t.kind == "cvx":
             return self.unk(f"cvx method {name}", node)
         lib = "numpy." if t.kind == "ndarray" else "torch."
+        if name in ("new_ones", "new_zeros", "new_empty", "new_full") and t.kind == "tensor":
+            # t.new_*(size, ...) == torch.*(size, ..., dtype=t.dtype, device=t.device)
+            r = self.call_lib("torch.", name[4:], list(args), {k: v for k, v in kwargs.items() if k not in ("device", "requires_grad")}, node, env)
+            if isinstance(r, TV) and "dtype" not in kwargs:
+                r = r.but(dtype=t.dtype)
+            return r
         # conversions / views
         if name in ("detach", "cpu", "cuda", "contiguous", "real", "ravel"):
             return t.but(axes=("K",) if name == "ravel" and len(t.axes) > 1 else t.axes)
